@@ -249,7 +249,7 @@ func TestC12(t *testing.T) {
 		[]string{"line breaks are only added next to existing line breaks (newlines are tokens of this grammar)", "multi-line block comments are only used as comment-only lines", "error texts are not compared (they carry positions)"})
 	defer r.Flush()
 	c13CorpusOnce.Do(loadC13Corpus)
-	gcfg := gen.Cfg{MaxStmts: 16, MaxDepth: 3, ExprDepth: 3, Funcs: true, MaxFuncs: 3, Slices: true, StrOps: true, LoopBudget: 8, Panics: true, IO: true, ErrSpell: true}
+	gcfg := gen.Cfg{MaxStmts: 16, MaxDepth: 3, ExprDepth: 3, Funcs: true, MaxFuncs: 3, Slices: true, StrOps: true, LoopBudget: 8, Panics: true, IO: true, ErrSpell: true, BareExpr: true}
 
 	// fixed cases named by the property (shard 0)
 	if e.Shard == 0 {
